@@ -1,6 +1,7 @@
 package chk
 
 import (
+	"fmt"
 	"go/types"
 	"strings"
 
@@ -18,7 +19,7 @@ func checkC12(c *Ctx, r *Report) {
 	r.Explanation = "Narrow clauses: (S-MEMBER) Size, Encode and EncodeSW of File and MediaSegment visit the same members in the same order under the same guards (styp, every sidx, fragments, mfra); " +
 		"(T-ORDER) when deciding whether a moof starts a new segment, the start-on-moof option is consulted only after the delimiters present in the file (styp handled by the caller, top-level sidx, tfra); " +
 		"(DEP) each sidx reference's size depends on MediaSegment.Size() of that segment and its duration on the summed Sample.Dur of the reference track, the earliest presentation time on tfdt; " +
-		"(E9) Sidx/Sidxs of File and MediaSegment are updated together; (O-PRE) durations are summed after tfhd/trex defaults are applied, and the add-sidx tool removes boxes before the index sizes are computed. Does not decide the partition for a given delimiter mix or anchor-point arithmetic."
+		"(E9) Sidx/Sidxs of File and MediaSegment are updated together; (W-FIRSTTREX) MvexBox.Trex, the first trex box, is read only by a frozen list of single-track functions; everything else looks the trex up by track id; (O-PRE) durations are summed after tfhd/trex defaults are applied, and the add-sidx tool removes boxes before the index sizes are computed. Does not decide the partition for a given delimiter mix or anchor-point arithmetic."
 	wireAssumptions(r)
 	m := compositeVerdicts(c)
 	for _, t := range []string{"File", "MediaSegment", "Fragment"} {
@@ -91,13 +92,14 @@ func checkC12(c *Ctx, r *Report) {
 	ruleAddSidxOrder(c, r)
 	ruleDefaultsBeforeDur(c, r)
 	ruleTrexFallback(c, r)
+	ruleFirstTrex(c, r, "W-FIRSTTREX")
 }
 
 // C15 — parameter sets and slice headers (id-domain typing clause only).
 func checkC15(c *Ctx, r *Report) {
 	r.Explanation = "One structural clause (id-domain typing): every lookup in / insertion into a map of sequence parameter sets is keyed by a value from the SPS-id domain " +
 		"(SPS.ParameterID, SPS.SpsID, PPS.SeqParameterSetID) and never by one from the PPS-id domain (PPS.PicParameterSetID, SliceHeader.PicParamID / PicParameterSetId); maps of picture parameter sets the other way round. " +
-		"So the slice resolves its PPS by the slice's pps id and the SPS by THAT PPS's sps id. Parsed field values, the cropping formula, slice header length and codec strings are NOT decided."
+		"So the slice resolves its PPS by the slice's pps id and the SPS by THAT PPS's sps id. (FWD-FIELD) no field-to-field copy between two struct types takes the value of a sibling field when both types have both names (e.g. chroma bit depth filled from luma bit depth). Parsed field values, the cropping formula, slice header length and codec strings are NOT decided."
 	spsDom := map[string]bool{"SPS.ParameterID": true, "SPS.SpsID": true, "PPS.SeqParameterSetID": true}
 	ppsDom := map[string]bool{"PPS.PicParameterSetID": true, "SliceHeader.PicParamID": true, "SliceHeader.PicParameterSetId": true}
 	n := 0
@@ -168,6 +170,16 @@ func checkC15(c *Ctx, r *Report) {
 		}
 	}
 	r.Floor("IDDOM", 9)
+	// copy-paste detector on parameter-set -> configuration-record / descriptor field copies
+	pairs := ruleCrossWired(c, r, "FWD-FIELD", func(f *ssa.Function) bool {
+		n := SSAFuncName(f)
+		return strings.HasPrefix(n, "avc.") || strings.HasPrefix(n, "hevc.") || strings.HasPrefix(n, "mp4.")
+	})
+	if pairs < 20 {
+		r.Undecided("FWD-FIELD", "scope", "", fmt.Sprintf("only %d field-to-field copies between different struct types found", pairs))
+	} else {
+		r.OK("FWD-FIELD", "scope", "", fmt.Sprintf("%d field-to-field copies between different struct types in avc, hevc, mp4: none takes a same-named sibling's value", pairs))
+	}
 }
 
 // C19 — init segments built through the API are consistent (narrow clauses).
